@@ -61,6 +61,7 @@ def run_cell(prop, cell, opts):
             ctx.begin()
             api.reset_path()
             del rt.PICKLE_BOX[:]
+            rt.B64_MEMO.clear()
             nv = len(ctx.violations)
             aborted = False
             try:
